@@ -17,6 +17,7 @@ func propC05(r *Report, tier string) {
 	ruleMergeIntroducerRemap(r, in, "K5dep-merge-remap")
 	rulePersistIntroducerCarry(r, in, "K9b-persist-carry")
 	ruleRosterRemovedByMembership(r, "K8-merge-plan-roster-removed")
+	rulePerSegmentFieldsInvalidatedOnSwitch(r, "K5-per-segment-fields-invalidated")
 	ruleExclusionAtReadSites(r, "K8-exclusion-at-read-sites")
 	ruleUnionConsumesAllCollections(r, "K14-union-consumes-all-inputs", "index/scorch.(*OptimizeTFRDisjunctionUnadorned).Finish", "IndexSnapshotTermFieldReader", "iterators")
 	ruleNilActualBitmapIsNotEmpty(r, "K6-nil-actual-bitmap-is-not-empty")
